@@ -188,6 +188,12 @@ func registerStd(e *Engine) {
 						switch v := it.v.(type) {
 						case int, int8, int16, int32, int64, uint, uint8, uint16, uint32, uint64, string, bool:
 							ga = append(ga, v)
+						case []value:
+							if b, isBytes := bytesOfValue(v); isBytes && !strings.Contains(f, "%s") && !strings.Contains(f, "%v") {
+								ga = append(ga, b)
+							} else {
+								okAll = false
+							}
 						default:
 							okAll = false
 						}
@@ -300,7 +306,35 @@ func registerStd(e *Engine) {
 		return mkBool(And(cs...))
 	})
 	R("bytes.Compare", func(fr *frame, a []value) value {
-		return bytes.Compare(byteSlice(a[0], "bytes.Compare"), byteSlice(a[1], "bytes.Compare"))
+		bx, okx := bytesOfValue(a[0])
+		by, oky := bytesOfValue(a[1])
+		if okx && oky {
+			return bytes.Compare(bx, by)
+		}
+		// symbolic bytes: lexicographic comparison, forking per position
+		x, _ := a[0].([]value)
+		y, _ := a[1].([]value)
+		n := len(x)
+		if len(y) < n {
+			n = len(y)
+		}
+		for k := 0; k < n; k++ {
+			xt, _ := intTerm(x[k])
+			yt, _ := intTerm(y[k])
+			if fr.i.decide(Lt(xt, yt)) {
+				return -1
+			}
+			if fr.i.decide(Gt(xt, yt)) {
+				return 1
+			}
+		}
+		switch {
+		case len(x) < len(y):
+			return -1
+		case len(x) > len(y):
+			return 1
+		}
+		return 0
 	})
 	R("bytes.IndexByte", func(fr *frame, a []value) value {
 		return bytes.IndexByte(byteSlice(a[0], "bytes.IndexByte"), a[1].(byte))
